@@ -307,6 +307,12 @@ class Recorder:
                 self.bad("argsOk", "handler %d got %r %r, event carried %r" % (hid, a, kw, exp))
             if with_details and (details is None or details.publication != exp[2]):
                 self.bad("argsOk", "handler %d details %r" % (hid, details))
+            # the details name the subscription of *this* handler (so that details.subscription.unsubscribe() removes the right one)
+            if with_details and details is not None:
+                sub = details.subscription
+                own = getattr(getattr(getattr(sub, "handler", None), "fn", None), "hid", None)
+                if own != hid:
+                    self.bad("argsOk", "handler %d was handed the subscription object of handler %r" % (hid, own))
         if hid in self.raising_handlers:
             raise RuntimeError("handler %d boom" % hid)
 
@@ -365,7 +371,7 @@ class FalsyService(dict):
 
 
 class Listener:
-    """decorated object subscription: the first method has options, the second has none"""
+    """decorated object subscription: the first method has options, the second has none and is subscribed to two topics (stacked decorators)"""
 
     def __init__(self, rec):
         self.rec = rec
@@ -375,6 +381,7 @@ class Listener:
         self.rec.on_handler(2, a, kw, details, True)
 
     @wamp.subscribe("com.myapp.topic2")
+    @wamp.subscribe("com.myapp.topic3")
     def b_second(self, *a, **kw):
         self.rec.on_handler(3, a, kw, None, False)
 
@@ -403,7 +410,7 @@ def scenario(rng, profile):
     R.inv_rp, R.endpoint_expect, R.raising_handlers = {}, {}, set()
     R.event_expect, R.inv_expect = None, None
     s.traceback_app = rng.random() < 0.3
-    hids = {1: False, 2: True, 3: False}
+    hids = {1: rng.random() < 0.4, 2: rng.random() < 0.7, 3: rng.random() < 0.4}      # which handlers ask for details
     for hid, wd in hids.items():
         R.handlers[hid] = R.make_handler(hid, wd)
     if rng.random() < 0.3:
@@ -780,18 +787,20 @@ def scenario(rng, profile):
         sent = [m for m in R.tr.sent[-len(rids):]] if rids else []
         for m in sent:
             want = "exact"
-            if (m.match or "exact") != want or m.topic not in ("com.myapp.topic1", "com.myapp.topic2"):
+            if (m.match or "exact") != want or m.topic not in ("com.myapp.topic1", "com.myapp.topic2", "com.myapp.topic3"):
                 R.bad("faithful", "decorated subscribe sent match=%r topic=%r" % (m.match, m.topic))
         # the spec sees two subscribe API calls
+        want_hs = [2, 3, 3]          # a_first once, b_second once per stacked decorator
+        if sorted(m.topic for m in sent) != sorted(["com.myapp.topic1", "com.myapp.topic2", "com.myapp.topic3"][:len(sent)]) and len(sent) == 3:
+            R.bad("faithful", "decorated subscribe topics %r" % [m.topic for m in sent])
         for i, rid in enumerate(rids):
-            R.requests[rid] = dict(kind="subscribe", hid=2 + i)
-            R.track(futs[i], rid)
-        if len(rids) == 2:
-            R.step(dict(ev="api", name="subscribe_obj", hs=[2, 3]))
-            rx(message.Subscribed(rids[0], 11), dict(t="subscribed", req=rids[0], sub=11))
-            rx(message.Subscribed(rids[1], 12), dict(t="subscribed", req=rids[1], sub=12))
-        else:
-            R.step(dict(ev="api", name="subscribe_obj", hs=[2, 3]))
+            R.requests[rid] = dict(kind="subscribe", hid=want_hs[i] if i < 3 else 3)
+            if i < len(futs):
+                R.track(futs[i], rid)
+        R.step(dict(ev="api", name="subscribe_obj", hs=want_hs))
+        if len(rids) == 3:
+            for i, rid in enumerate(rids):
+                rx(message.Subscribed(rid, 11 + i), dict(t="subscribed", req=rid, sub=11 + i))
     elif s._session_id is not None and profile == "c11":
         for hid in rng.sample([1, 2, 3], rng.randint(1, 3)):
             R.expect_sent = dict(uri="com.myapp.topic1")
